@@ -158,7 +158,8 @@ class SPARQLFunction(SHACLFunction):
             return None
         rvar = results.vars[0]
         result = results.bindings[0]
-        return result[rvar]
+        # the projected expression may be unbound in the solution (e.g. an arithmetic error): no result
+        return result.get(rvar, None)
 
     def execute_ask(self, g: 'GraphLike', init_bindings: Dict):
         a = self._qh.apply_prefixes(self.ask)
